@@ -24,9 +24,11 @@ def gen_emit(rng: random.Random, n_ent: int, n_kinds: int, allow_past: bool) -> 
 
 
 def gen_program(rng: random.Random, *, max_entities=5, max_initial=24, allow_crash=True,
-                allow_past=True, allow_gen=True, fuel=None) -> dict:
+                allow_past=True, allow_gen=True, fuel=None, allow_prepared=False) -> dict:
     n_ent = rng.randint(1, max_entities)
     n_kinds = rng.randint(1, 4)
+    prepared: list[dict] = []
+    want_prepared = allow_prepared and rng.random() < 0.3
     crashable = [e for e in range(n_ent) if allow_crash and rng.random() < 0.2]
     handlers = {}
     for e in range(n_ent):
@@ -62,6 +64,18 @@ def gen_program(rng: random.Random, *, max_entities=5, max_initial=24, allow_cra
     n_init = rng.randint(0, max_initial)
     # heavy timestamp collisions: draw from a small pool
     pool = [rng.choice(T0_CHOICES_NS) for _ in range(rng.randint(1, 4))]
+    if want_prepared:
+        # events built before the run but handed over by a handler during it; their timestamps collide with what
+        # handlers create on the spot (now + dt for the usual dt values)
+        lists = [h["emits"] for h in handlers.values()] + [st["emits"] for h in handlers.values() for st in h.get("steps", [])]
+        for _ in range(rng.randint(1, 6)):
+            if not lists:
+                break
+            base = rng.choice(pool)
+            prepared.append({"t": base + rng.choice([0, 0, 1, 1_000, 100_000_000, 100_000_001, 200_000_000]),
+                             "to": rng.randrange(n_ent), "k": rng.randrange(n_kinds), "daemon": rng.random() < 0.1})
+            tgt = rng.choice(lists)
+            tgt.insert(rng.randint(0, len(tgt)), {"prep": len(prepared) - 1})
     initial = [
         {"t": rng.choice(pool), "to": rng.randrange(n_ent), "k": rng.randrange(n_kinds),
          "daemon": rng.random() < 0.2, "cancel": rng.choice([True, "late"]) if rng.random() < 0.12 else False}
@@ -83,7 +97,7 @@ def gen_program(rng: random.Random, *, max_entities=5, max_initial=24, allow_cra
     else:
         end = times[-1] + 4_000_000_000_000
     return {
-        "n_entities": n_ent, "n_kinds": n_kinds, "handlers": handlers, "initial": initial,
+        "n_entities": n_ent, "n_kinds": n_kinds, "handlers": handlers, "initial": initial, "prepared": prepared,
         "sched_order": order, "end": end, "fuel": fuel if fuel is not None else rng.choice([20, 60, 150]),
     }
 
@@ -104,6 +118,8 @@ class ProgramRunner:
         self.uid_of: dict[int, int] = {}
         self.late_cancels: list[Event] = []
         self._created: list[Event] = []
+        self.prepared: list[Event] = []
+        self._handed: set[int] = set()
 
     def new_event(self, t_ns: int, to: int, k: int, daemon: bool) -> Event:
         ev = Event(time=Instant(t_ns), event_type=f"k{k}", target=self.entities[to], daemon=daemon)
@@ -117,8 +133,19 @@ class ProgramRunner:
             if self.fuel <= 0:
                 break
             self.fuel -= 1
+            if "prep" in e:
+                ev = self.prepared[e["prep"]]
+                if id(ev) not in self._handed:
+                    self._handed.add(id(ev))
+                    out.append(ev)
+                continue
             out.append(self.new_event(now_ns + e["dt"], e["to"], e["k"], e.get("daemon", False)))
         return out
+
+    def create_prepared(self) -> None:
+        """Construct (but do not schedule) the prepared events; call right after the last create_initial()."""
+        for pe in self.prog.get("prepared", []):
+            self.prepared.append(self.new_event(pe["t"], pe["to"], pe["k"], pe.get("daemon", False)))
 
     def create_initial(self, start: int = 0, stop: int | None = None) -> None:
         """Construct initial events [start, stop) now (creation order = list order)."""
